@@ -48,19 +48,68 @@ theorem idft2_follows_source_wiring (F : Arr ℂ) (αr αc : ℝ) (M N : ℤ) (s
   unfold idft2 Gen.fwIdft2
   simp only [Gen.fwIdft2Offset, CxLike.conj, CxLike.divInt]
 
-/-- **writing into a caller-supplied buffer.** In the buffer model of the `out=` path (`Model/FourierOut.lean`; the dtype guard and
-"the result is the buffer" are regenerated from `dft2`): a buffer that cannot hold complex values is refused with `TypeError`; any
-other buffer — whatever it held before — ends up holding exactly the values of a fresh allocation, and is the returned object.
-*Caveat, no theorem:* the in-place call `out=f` (buffer aliasing the input) is outside this model — the input is read as a
-snapshot; that `E1.dot(f)` is evaluated before the buffer is written is NumPy's evaluation order, observed by the correspondence only. -/
+/-- **writing into a caller-supplied buffer.** In the buffer model of the `out=` path (`Model/FourierOut.lean`): `dft2`'s own dtype
+guard (regenerated from the source) comes first and refuses with `TypeError` a buffer whose dtype cannot hold complex values; a
+buffer passing it that `np.dot(out=)` does not accept (`dotAccepts`: exactly complex128, shape `(M, N)`, C-contiguous by its strides,
+writeable — NumPy's contract written by hand, TRUSTED, compared with the real outcome by the op `c01.out` on every generated buffer) is
+refused with `ValueError`; a buffer passing both — whatever it held before — ends up holding exactly the values of a fresh
+allocation and is the returned object. *Outside the model, no theorem:* the in-place call `out=f` (buffer aliasing the input: the
+input is read as a snapshot here; that `E1.dot(f)` is evaluated before the buffer is written is NumPy's evaluation order),
+alignment, and `idft2(out=)` — observed by the correspondence and the oracle only. -/
 theorem dft2_out_buffer (f : Arr ℂ) (αr αc : ℝ) (M N : ℤ) (shr shc : ℝ) (offr offc : ℤ) (unitary : Bool) (b : OutBuf ℂ) :
-    (b.canCastComplex = false → dft2Out f αr αc M N shr shc offr offc unitary (some b) = OutCall.typeError) ∧
-    (b.canCastComplex = true → dft2Out f αr αc M N shr shc offr offc unitary (some b)
+    (b.dtype.canCastComplex = false → dft2Out f αr αc M N shr shc offr offc unitary (some b) = OutCall.typeError) ∧
+    (b.dtype.canCastComplex = true → dotAccepts b M N = false →
+      dft2Out f αr αc M N shr shc offr offc unitary (some b) = OutCall.valueError) ∧
+    (b.dtype.canCastComplex = true → dotAccepts b M N = true → dft2Out f αr αc M N shr shc offr offc unitary (some b)
       = OutCall.ok (dft2 f αr αc M N shr shc offr offc unitary) (some (dft2 f αr αc M N shr shc offr offc unitary)) true) ∧
     dft2Out f αr αc M N shr shc offr offc unitary none = OutCall.ok (dft2 f αr αc M N shr shc offr offc unitary) none false := by
-  refine ⟨fun h => ?_, fun h => ?_, rfl⟩
+  refine ⟨fun h => ?_, fun h h' => ?_, fun h h' => ?_, rfl⟩
   · simp [dft2Out, Gen.fwOutRefused, h]
-  · simp [dft2Out, Gen.fwOutRefused, Gen.fwOutResultIsBuffer, h]
+  · simp [dft2Out, Gen.fwOutRefused, h, h']
+  · simp [dft2Out, Gen.fwOutRefused, Gen.fwOutResultIsBuffer, h, h']
+
+/-- **which buffers are written.** The call with `out=b` returns normally exactly when `b` is a writeable complex128 array of shape
+`(M, N)` whose strides `(s, t)` (in elements) are C-contiguous in NumPy's sense: `t = 1` unless `N = 1`, and `s = N` unless `M = 1`.
+So Fortran-ordered, strided, read-only, complex64, clongdouble, object, real and wrongly shaped buffers are all refused, while a
+Fortran-ordered single row or a 1×1 buffer is accepted. -/
+theorem dft2_out_accepted_iff (f : Arr ℂ) (αr αc : ℝ) (M N : ℤ) (shr shc : ℝ) (offr offc : ℤ) (unitary : Bool) (b : OutBuf ℂ) :
+    (∃ r a t, dft2Out f αr αc M N shr shc offr offc unitary (some b) = OutCall.ok r a t) ↔
+      b.dtype = BufDtype.complex128 ∧ b.writeable = true ∧
+        ∃ s t, b.shape = [M, N] ∧ b.strides = [s, t] ∧ (N = 1 ∨ t = 1) ∧ (M = 1 ∨ s = N) := by
+  have key : dotAccepts b M N = true ↔ b.dtype = BufDtype.complex128 ∧ b.writeable = true ∧
+        ∃ s t, b.shape = [M, N] ∧ b.strides = [s, t] ∧ (N = 1 ∨ t = 1) ∧ (M = 1 ∨ s = N) := by
+    unfold dotAccepts
+    rcases hs : b.shape with _ | ⟨a, _ | ⟨c, _ | _⟩⟩ <;> rcases ht : b.strides with _ | ⟨s, _ | ⟨t, _ | _⟩⟩ <;>
+      simp [cContiguous2]
+    constructor
+    · rintro ⟨⟨hd, hw⟩, ⟨rfl, rfl⟩, h1, h2⟩; exact ⟨hd, hw, ⟨rfl, rfl⟩, h1, h2⟩
+    · rintro ⟨hd, hw, ⟨rfl, rfl⟩, h1, h2⟩; exact ⟨⟨hd, hw⟩, ⟨rfl, rfl⟩, h1, h2⟩
+  rw [← key]
+  constructor
+  · rintro ⟨r, a, t, h⟩
+    by_contra hn
+    have hn' : dotAccepts b M N = false := by simpa using hn
+    by_cases hc : b.dtype.canCastComplex = true
+    · simp [dft2Out, Gen.fwOutRefused, hc, hn'] at h
+    · simp [dft2Out, Gen.fwOutRefused, hc] at h
+  · intro h
+    have hc : b.dtype.canCastComplex = true := by
+      have : b.dtype = BufDtype.complex128 := (key.mp h).1
+      rw [this]; rfl
+    exact ⟨_, _, _, ((dft2_out_buffer f αr αc M N shr shc offr offc unitary b).2.2.1 hc h)⟩
+
+/-- non-vacuity of both directions: a Fortran-ordered 2×5 complex128 buffer (strides 1, 2) is refused with `ValueError`, a
+Fortran-ordered 1×5 one (strides 1, 1) is written, a clongdouble buffer passes `dft2`'s guard and is refused by `np.dot`, a
+complex64 buffer is refused by the guard whatever its shape -/
+example (f : Arr ℂ) (x : Arr ℂ) :
+    dft2Out f (0.2 : ℝ) 0.2 2 5 0 0 0 0 true (some ⟨.complex128, [2, 5], [1, 2], true, x⟩) = OutCall.valueError ∧
+    (∃ r a t, dft2Out f (0.2 : ℝ) 0.2 1 5 0 0 0 0 true (some ⟨.complex128, [1, 5], [1, 1], true, x⟩) = OutCall.ok r a t) ∧
+    dft2Out f (0.2 : ℝ) 0.2 2 5 0 0 0 0 true (some ⟨.clongdouble, [2, 5], [5, 1], true, x⟩) = OutCall.valueError ∧
+    dft2Out f (0.2 : ℝ) 0.2 2 5 0 0 0 0 true (some ⟨.complex64, [3, 5], [5, 1], true, x⟩) = OutCall.typeError := by
+  refine ⟨by simp [dft2Out, Gen.fwOutRefused, BufDtype.canCastComplex, dotAccepts, cContiguous2], ?_,
+    by simp [dft2Out, Gen.fwOutRefused, BufDtype.canCastComplex, dotAccepts],
+    by simp [dft2Out, Gen.fwOutRefused, BufDtype.canCastComplex]⟩
+  exact (dft2_out_accepted_iff ..).mpr ⟨rfl, rfl, 1, 1, rfl, rfl, Or.inr rfl, Or.inl rfl⟩
 
 /-- **defining sum of the inverse transform.** For every array, real samplings, output shape, real shifts and both flags:
 `idft2` is the double sum `Σ_u Σ_v F[u,v]·exp(+2πi(αr·U·X + αc·V·Y))` with `U = u − ⌊m/2⌋` (input origin at `⌊n/2⌋`, no
@@ -196,6 +245,63 @@ theorem idft2_dft2_full_period (f : Arr ℂ) (m n : ℕ) (hm : f.s0 = m) (hn : f
   · simp only [if_true]
     rw [← mul_assoc, ← Complex.ofReal_mul, sqrt_abs_inv_mul_self m n hm0 hn0]
     push_cast; field_simp
+
+open ComplexConjugate in
+/-- **the round trip with shifts and offsets is a rolled, phased copy.** Full period (`α = (1/m, 1/n)`, output shape = input
+shape, same flag on both sides), forward transform with any real shift `(shr, shc)` and integer offset `(offr, offc)`, inverse
+transform with an integer shift `(tr, tc)`: sample `[i, j]` of `idft2 (dft2 f)` is input sample
+`[x, y] = [(i − tr − offr) mod m, (j − tc − offc) mod n]` times the phase ramp the forward shift puts on that sample,
+`exp(2πi((x − ⌊m/2⌋ + offr)·shr/m + (y − ⌊n/2⌋ + offc)·shc/n))`. (All zero: `idft2_dft2_full_period`.) -/
+theorem idft2_dft2_full_period_rolled (f : Arr ℂ) (m n : ℕ) (hm : f.s0 = m) (hn : f.s1 = n) (hm0 : 0 < m) (hn0 : 0 < n)
+    (shr shc : ℝ) (offr offc tr tc : ℤ) (unitary : Bool) (i j : ℤ) :
+    (idft2 (dft2 f (1 / (m : ℝ)) (1 / (n : ℝ)) m n shr shc offr offc unitary) (1 / (m : ℝ)) (1 / (n : ℝ)) m n
+        ((tr : ℤ) : ℝ) ((tc : ℤ) : ℝ) unitary).get i j
+      = Complex.exp ((2 * Real.pi * Complex.I) *
+          ((1 / (m : ℝ) * (((i - tr - offr) % m - (m : ℤ) / 2 + offr : ℤ) : ℝ) * shr : ℝ) : ℂ))
+        * Complex.exp ((2 * Real.pi * Complex.I) *
+          ((1 / (n : ℝ) * (((j - tc - offc) % n - (n : ℤ) / 2 + offc : ℤ) : ℝ) * shc : ℝ) : ℂ))
+        * f.get ((i - tr - offr) % m) ((j - tc - offc) % n) := by
+  show _ = ramp m offr shr ((i - tr - offr) % m) * ramp n offc shc ((j - tc - offc) % n) * _
+  obtain ⟨x', hx', hxm⟩ : ∃ x' : ℕ, (x' : ℤ) = (i - tr - offr) % m ∧ x' < m :=
+    ⟨((i - tr - offr) % m).toNat, Int.toNat_of_nonneg (Int.emod_nonneg _ (by exact_mod_cast hm0.ne')),
+      by have := Int.emod_lt_of_pos (i - tr - offr) (show (0 : ℤ) < m by exact_mod_cast hm0)
+         have := Int.emod_nonneg (i - tr - offr) (show (m : ℤ) ≠ 0 by exact_mod_cast hm0.ne'); omega⟩
+  obtain ⟨y', hy', hyn⟩ : ∃ y' : ℕ, (y' : ℤ) = (j - tc - offc) % n ∧ y' < n :=
+    ⟨((j - tc - offc) % n).toNat, Int.toNat_of_nonneg (Int.emod_nonneg _ (by exact_mod_cast hn0.ne')),
+      by have := Int.emod_lt_of_pos (j - tc - offc) (show (0 : ℤ) < n by exact_mod_cast hn0)
+         have := Int.emod_nonneg (j - tc - offc) (show (n : ℤ) ≠ 0 by exact_mod_cast hn0.ne'); omega⟩
+  rw [idft2_get_eq]
+  simp only [dft2C_s0, dft2C_s1, Int.toNat_natCast, dft2_get_eq]
+  rw [pull_const]
+  unfold dft2Sum
+  simp only [hm, hn, Int.toNat_natCast]
+  simp only [ker_inv_roll m hm0 offr tr shr, ker_inv_roll n hn0 offc tc shc, ← hx', ← hy']
+  have hpull : ∀ (a b : ℕ → ℂ) (S : ℕ → ℕ → ℂ) (p q : ℂ),
+      ∑ v ∈ range n, (∑ u ∈ range m, (p * a u) * S u v) * (q * b v)
+        = p * q * ∑ v ∈ range n, (∑ u ∈ range m, a u * S u v) * b v := by
+    intro a b S p q
+    simp only [mul_sum, sum_mul]
+    exact sum_congr rfl fun v _ => sum_congr rfl fun u _ => by ring
+  rw [hpull]
+  rw [inv2 m n m n (fun x u => ker (1 / m) m m offr shr x u) (fun y v => ker (1 / n) n n offc shc y v)
+    (orth_ker m m hm0 le_rfl m offr shr) (orth_ker n n hn0 le_rfl n offc shc) (fun x y => f.get x y) x' y' hxm hyn]
+  have hm' : (m : ℂ) ≠ 0 := by exact_mod_cast hm0.ne'
+  have hn' : (n : ℂ) ≠ 0 := by exact_mod_cast hn0.ne'
+  cases unitary
+  · simp only [Bool.false_eq_true, if_false]; push_cast; field_simp
+  · simp only [if_true]
+    rw [← mul_assoc, ← Complex.ofReal_mul, sqrt_abs_inv_mul_self m n hm0 hn0]
+    push_cast; field_simp
+
+/-- **with no forward shift the round trip is a circular roll.** Integer offsets on the way forward and an integer shift on the
+way back move the samples circularly and change nothing else: `idft2 (dft2 f)[i, j] = f[(i − tr − offr) mod m, (j − tc − offc) mod n]`. -/
+theorem idft2_dft2_full_period_roll (f : Arr ℂ) (m n : ℕ) (hm : f.s0 = m) (hn : f.s1 = n) (hm0 : 0 < m) (hn0 : 0 < n)
+    (offr offc tr tc : ℤ) (unitary : Bool) (i j : ℤ) :
+    (idft2 (dft2 f (1 / (m : ℝ)) (1 / (n : ℝ)) m n 0 0 offr offc unitary) (1 / (m : ℝ)) (1 / (n : ℝ)) m n
+        ((tr : ℤ) : ℝ) ((tc : ℤ) : ℝ) unitary).get i j
+      = f.get ((i - tr - offr) % m) ((j - tc - offc) % n) := by
+  rw [idft2_dft2_full_period_rolled f m n hm hn hm0 hn0 0 0 offr offc tr tc unitary i j]
+  simp
 
 open ComplexConjugate in
 /-- **inversion of an oversampled period.** Forward transform with `α = (1/K, 1/L)` onto `K × L` samples, `K ≥ m`, `L ≥ n` (the
